@@ -25,6 +25,96 @@ def short(q):
     return q.replace("CDNS::", "")
 
 
+# ------------------------------------------------------------------ R09.6 the reader rejects nothing the writer emits
+
+VALUE_READERS = ("read_textstring", "read_bytestring", "read_unsigned", "read_negative", "read_integer", "read_bool")
+
+
+def content_dependent_throws(fn):
+    """Throws in fn that are control-dependent on a value decoded from the input (not on its CBOR type or on bookkeeping):
+    [(throw node, tainted name)].  Taint: locals / members that receive the result of a value reader, and whatever is computed
+    from them (fixpoint over declarations, assignments and range-for variables)."""
+    tainted = set()
+
+    def mentions(e):
+        for x in ir.walk(e) if isinstance(e, dict) else []:
+            if x.get("k") in ("MCall", "Call") and callee_qn(x) and callee_qn(x).split("::")[-1] in VALUE_READERS and \
+                    (x.get("callee") or {}).get("cls") == "CDNS::CdnsDecoder":
+                return "decoded value"
+            p_ = path(x)
+            if p_ is not None:
+                for i in range(1, len(p_) + 1):
+                    if p_[:i] in tainted:
+                        return path_str(p_[:i])
+        return None
+    changed = True
+    while changed:
+        changed = False
+        for n in ir.walk(fn["body"]):
+            k = n.get("k")
+            tgt = src = None
+            if k == "Decl":
+                for v in n.get("vars", []):
+                    if v.get("init") is not None and "n" in v and mentions(v["init"]):
+                        t = ("l:%s#%s" % (v["n"], v["id"]),)
+                        if t not in tainted:
+                            tainted.add(t)
+                            changed = True
+                continue
+            if k == "Bin" and n.get("op", "").endswith("=") and n["op"] not in ("==", "!=", "<=", ">="):
+                tgt, src = path(n["lhs"]), n["rhs"]
+            elif k == "OpCall" and n.get("op") in ("=", "+=") and len(n.get("args", [])) == 2:
+                tgt, src = path(n["args"][0]), n["args"][1]
+            elif k == "RangeFor" and isinstance(n.get("var"), dict) and n.get("range") is not None:
+                tgt, src = ("l:%s#%s" % (n["var"].get("n"), n["var"].get("id")),), n["range"]
+            if tgt and src is not None and tgt not in tainted and mentions(src):
+                tainted.add(tuple(x for x in tgt if not x.startswith("[")))
+                changed = True
+    out = []
+    for n, parents in ir.walk_with_parents(fn["body"]):
+        if n.get("k") != "Throw":
+            continue
+        for a in parents:
+            c = None
+            if a.get("k") == "If":
+                c = a.get("cond")
+            elif a.get("k") in ("While", "Do", "For"):
+                c = a.get("cond")
+            elif a.get("k") == "Switch":
+                c = a.get("cond")
+            why = mentions(c) if c is not None else None
+            if why and not any(x is n for x in ir.walk(c)):
+                out.append((n, why))
+                break
+    return out
+
+
+def check_no_reader_only_rejection(run, rule, pairs):
+    n = 0
+    # controls: the detector reports a value-dependent rejection and is silent on a type check
+    if not content_dependent_throws(run.facts.control("r09_6_rejecting_reader", rule)) or \
+            content_dependent_throws(run.facts.control("r09_6_type_check_only", rule)):
+        raise AnalysisBroken(rule, "the value-dependent-rejection detector gives the wrong answer on its controls (tu/rule_controls.cpp)")
+    for s, (wa, mr, w, r) in pairs.items():
+        n += 1
+        rt = content_dependent_throws(r)
+        # the writer's own checks: throws that depend on a member of the object being written
+        wt = [x for x, parents in ir.walk_with_parents(w["body"]) if x.get("k") == "Throw" and any(
+            a.get("k") in ("If", "While", "For", "Do") and a.get("cond") is not None and any(
+                (path(y) or ("",))[0] == "this" and len(path(y)) > 1 for y in ir.walk(a["cond"])) for a in parents)]
+        if not rt:
+            run.ob(rule, "%s:reader-accepts-what-writer-emits" % short(s), True, r, r["line"],
+                   "no exception in read() depends on a decoded value: every value write() emits is accepted", nontrivial=False)
+        elif not wt:
+            run.ob(rule, "%s:reader-accepts-what-writer-emits" % short(s), False, r, rt[0][0].get("l", r["line"]),
+                   "read() throws depending on %s, write() emits every value without any check: some preamble an application can "
+                   "construct is written but cannot be read back" % rt[0][1])
+        else:
+            run.ob(rule, "%s:reader-accepts-what-writer-emits" % short(s), None, r, rt[0][0].get("l", r["line"]),
+                   "both read() and write() validate values (%s); whether the two checks accept the same set is not decided" % rt[0][1])
+    run.floor(rule, 5, "preamble structs")
+
+
 def check(run):
     facts = run.facts
     was = {}
@@ -40,6 +130,8 @@ def check(run):
     tables.check_rfc_keys(run, "R09.1", was, only=MAPNAMES)
     run.floor("R09.1", 120, "key rows x (keyset, member, kind) + RFC rows for 5 structs / 30 keys")
     run.floor("R09.4", 12, "scalar members with a width")
+
+    check_no_reader_only_rejection(run, "R09.6", pairs)
 
     # R09.2 absent stays absent
     n = 0
